@@ -83,9 +83,11 @@ func specAuthorizedFor(perm uint8) bool {
 }
 
 // ---------------------------------------------------------------------------------------------------------
-// Subscribe / Unsubscribe: the coupling between the connection's bookkeeping and the trie (C02, C08)
+// Subscribe / Unsubscribe: the coupling between the connection's bookkeeping and the trie (C02, C08), and the one
+// presence notification per transition (C18) - also for a subscriber that is not (or no longer) in the trie, which is
+// how the subscriptions of a dead peer are announced one by one
 
-// @ verify (*Service).Subscribe pre=pre_Sub post=post_Subscribe props=C02,C08
+// @ verify (*Service).Subscribe pre=pre_Sub post=post_Subscribe props=C02,C08,C18
 func pre_Sub(s *Service, sub message.Subscriber, ev *event.Subscription) bool {
 	return pre_Service(s) && sub != nil && ev != nil
 }
@@ -101,7 +103,7 @@ func post_Subscribe(s *Service, sub message.Subscriber, ev *event.Subscription, 
 		vs.TraceCount("Trie).Unsubscribe") == 0
 }
 
-// @ verify (*Service).Unsubscribe pre=pre_Sub post=post_Unsubscribe props=C02,C08
+// @ verify (*Service).Unsubscribe pre=pre_Sub post=post_Unsubscribe props=C02,C08,C18
 func post_Unsubscribe(s *Service, sub message.Subscriber, ev *event.Subscription, res0 bool) bool {
 	c := vs.TraceFind("CanUnsubscribe")
 	if c >= 0 && !vs.TraceRet[bool](c, 0) { // the connection does not hold the filter (or holds it more than once): nothing
